@@ -236,8 +236,8 @@ def run(ctx):
             execute(ctx, sub3, "sub3", "go")
     if on("race"):
         # (5) the same programs free-running on one goroutine per document under the race detector
-        race = gen(ctx, "gen_race.cfg", "SpecGen", "Emit", 2, CORE if q else FULL, 1, 2, "race")
-        execute(ctx, unordered(ctx, race, "race"), "race", "race", rounds=16 if q else 20)
+        race = gen(ctx, "gen_race.cfg", "SpecGen", "Emit", 2, [o for o in CORE if o != "AddStyle"] if q else FULL, 1, 2, "race")
+        execute(ctx, unordered(ctx, race, "race"), "race", "race", rounds=12 if q else 20)
         if not q:
             race2 = gen(ctx, "gen_race2.cfg", "SpecGen", "Emit", 3, FULL, 3, 7, "race2", mode="sim", num=8, depth=8, limit=100)
             execute(ctx, unordered(ctx, race2, "race2"), "race2", "race", rounds=24)
@@ -255,7 +255,7 @@ def run(ctx):
         gate="one goroutine per document, every 1+1 schedule%s" % ("" if q else " over alphabet_full and every 2+1 schedule over alphabet_core"),
         sub="every schedule of 2 registry calls (1+1 and 2+0 excluded) at hook-point granularity in which the as-built model predicts a duplicate id"
             + ("" if q else "; random ones of 3 calls"),
-        race="every unordered pair of single calls free-running under -race, %d rounds each" % (16 if q else 20),
+        race="every unordered pair of single calls free-running under -race, %d rounds each" % (12 if q else 20),
         alphabet_core=CORE, alphabet_full=FULL)
     model_diag(ctx)
     return ctx.finish(LEVEL, RULE)
